@@ -135,7 +135,7 @@ Definition spec_ok (c : case) : bool :=
 (* finding class 1: in the model's run of this case an elected leader did not find its own
    commit in take_pending (it had been drained by another committer's take_pending) *)
 Definition known_class (c : case) : Z :=
-  if stolen (sh (fst (final_and_obs c))) then 0 else 0.
+  if stolen (sh (fst (final_and_obs c))) then 1 else 0.
 
 Fixpoint failures_from (i : Z) (cs : list case) : list (Z * bool * bool * Z) :=
   match cs with
